@@ -1016,7 +1016,10 @@ def observe_sweep(case):
             out += [[inv[float(iv.left)], inv[float(iv.right)]], [int(e.id) for e in eo], [int(e.id) for e in ei]]
         return out
     trees = [impl_tree_obs(ts, t, inv, case["sample_lists"], case["queries"]) for t in ts.trees(**kw)]
-    return {"edges": edges, "obs": [head, dl(), dl(include_terminal=True)] + trees}
+    sites = {"pos": [inv[float(p)] for p in ts.sites_position],
+             "muts": [[int(a), int(b)] for a, b in zip(ts.mutations_site, ts.mutations_node)],
+             "obs": [[int(s.id) for s in t.sites()] for t in ts.trees()] + [[int(m.edge) for m in ts.mutations()]]}
+    return {"edges": edges, "obs": [head, dl(), dl(include_terminal=True)] + trees, "sites": sites}
 
 
 def coq_sweep_term(case, obs):
@@ -1024,8 +1027,14 @@ def coq_sweep_term(case, obs):
     ns = "[" + "; ".join("mkNode %s %s" % (cbool(nd[0] & 1), cz(nd[1])) for nd in desc["nodes"]) + "]"
     es = "[" + "; ".join("mkEdge %s %s %s %s" % tuple(cz(x) for x in e) for e in obs["edges"]) + "]"
     o = "(mkOpts %s %s %s)" % (cz(case["thr"]), cbool(case["sample_lists"]), clist(case.get("tracked") or []))
-    return "res_eqb zlll_eqb (model_obs %s %s %s %s %s) %s" % (
+    term = "res_eqb zlll_eqb (model_obs %s %s %s %s %s) %s" % (
         cz(2 * desc["L"]), ns, es, o, cbool(case["queries"]), clll(obs["obs"]))
+    st = obs["sites"]
+    if st["pos"]:
+        muts = "[" + "; ".join("(%s, %s)" % (cz(a), cz(b)) for a, b in st["muts"]) + "]"
+        term += " && res_eqb zll_eqb (model_sites %s %s %s %s %s) %s" % (
+            cz(2 * desc["L"]), ns, es, clist(st["pos"]), muts, cll(st["obs"]))
+    return term
 
 
 class SweepBase(Family):
@@ -1103,7 +1112,8 @@ class SweepRand(SweepBase):
     def generate(self, rng, tier):
         n = 360 if tier == "quick" else 8000
         for i in range(n):
-            desc = gen_ts.random_desc(rng, max_nodes=9, max_L=6, max_sites=0, metadata=False,
+            desc = gen_ts.random_desc(rng, max_nodes=9, max_L=6, max_sites=rng.choice([0, 3, 5]),
+                                      max_muts=3, metadata=False,
                                       individuals=False, populations=False,
                                       p_internal_sample=rng.choice([0.0, 0.15, 0.5]),
                                       p_gap=rng.choice([0.0, 0.15, 0.4]),
